@@ -143,14 +143,36 @@ def describe(bench, cons, m, probe=None, objs=None):
     return d
 
 
+class Inv(dict):
+    """version object -> rank: by identity, else (an implementation may hand back an equal object of the same
+    class, which no property forbids) by class and the real `==`"""
+
+    def __init__(self, m):
+        super().__init__((id(v), r) for r, (_, v) in enumerate(m))
+        self.m = m
+
+    def rank(self, v):
+        r = self.get(id(v))
+        if r is not None:
+            return r
+        hits = [r for r, (_, w) in enumerate(self.m) if type(w) is type(v) and w == v and v == w]
+        if len(hits) == 1:
+            return hits[0]
+        raise ForeignVersion("a constraint of the result holds %r (%s), which is none of the versions given" % (v, type(v).__name__))
+
+
+class ForeignVersion(Exception):
+    pass
+
+
 def canon_cons(objs, m_inv):
-    """implementation constraints -> list of (cmpr, rank) using identity of version objects"""
+    """implementation constraints -> list of (cmpr, rank)"""
     out = []
     for c in objs:
         if c.comparator == "*":
             out.append(("star", None))
         else:
-            out.append((NAME[c.comparator], m_inv[id(c.version)]))
+            out.append((NAME[c.comparator], m_inv.rank(c.version) if isinstance(m_inv, Inv) else m_inv[id(c.version)]))
     return out
 
 
